@@ -588,7 +588,7 @@ def client_group(ctx, rep):
     sclo = util.call_graph_closure(fb, ["server::SrpVerifier::into_proof", "server::SrpProof::into_server"])
     rep.check(bool(sclo & forbidden_fns), "client-group", "server::SrpProof::into_server", "fixture", "fixture: the server closure reaches the built-in defaults (rule can fire)", "fixture failed: the census does not see the server using the built-in group")
     # operands in the client wiring are the announced parameters
-    se = ctx.wrap.run(root)
+    se = ctx.api.run(root)
     if se is None:
         rep.violation("client-group", root, "anchor", "not found")
         return
